@@ -1,6 +1,7 @@
 """C04  The pilot scheduler neither loses nor starves tasks (DESIGN 5 / C04)"""
 
 import ast
+from collections import deque
 
 from ..model import (walk, dotted, call_name, kwarg, unparse, short, UNKNOWN,
                      root_name, AnalysisError, calls_in, stores_in_target)
@@ -215,7 +216,7 @@ def r04_1(prog, rep, rid='R04.1'):
             unparse(n.targets[0]).startswith('self._waitpool[')]
     okn = False
     for n in newp:
-        names = {x.id for x in walk(n.value) if isinstance(x, ast.Name)}
+        names = _flows_into(g2, smap2, f2.node, n.value, smap2[id(n)])
         if badl in names and (keep is None or keep in names) and \
                 good not in names:
             cn = smap2[id(n)]
@@ -228,6 +229,51 @@ def r04_1(prog, rep, rid='R04.1'):
               % (badl, keep), loc=f2.loc(bis),
               history='tasks that did not fit are dropped from the pool, or '
               'started tasks stay in it and are started again')
+
+
+_FILLERS = ('append', 'extend', 'update', 'add', 'insert', 'setdefault')
+
+
+def _flows_into(g, smap, fnode, value, at, depth=3):
+    """plain names whose content flows into `value`, evaluated at cfg node
+    `at`: the names it mentions; for a mentioned loop variable of a `for`
+    enclosing `at` what its iterable mentions; for a mentioned local container
+    which is filled in this function (x[k] = v, x.append/extend/update(v),
+    x += v) what is filled in.  Flow-insensitive for the fills (a lower bound
+    on nothing: used to ask which lists reach a new pool at all)"""
+    comp = set()
+    for x in walk(value):
+        if isinstance(x, ast.comprehension):
+            comp |= set(stores_in_target(x.target))
+    names = {x.id for x in walk(value) if isinstance(x, ast.Name)}
+    out = set(names)
+    if depth <= 0:
+        return out
+    for nm in names - comp - {'self'}:
+        for h in reversed(at.loops):
+            hn = g.nodes[h]
+            if hn.kind == 'for' and nm in stores_in_target(hn.ast.target):
+                out |= _flows_into(g, smap, fnode, hn.ast.iter, hn, depth - 1)
+                break
+        for st in walk(fnode):
+            v = None
+            if isinstance(st, ast.Assign) and any(
+                    isinstance(t, ast.Subscript) and
+                    isinstance(t.value, ast.Name) and t.value.id == nm
+                    for t in st.targets):
+                v = st.value
+            elif isinstance(st, ast.AugAssign) and \
+                    isinstance(st.target, ast.Name) and st.target.id == nm:
+                v = st.value
+            elif isinstance(st, ast.Expr) and isinstance(st.value, ast.Call) \
+                    and isinstance(st.value.func, ast.Attribute) and \
+                    st.value.func.attr in _FILLERS and \
+                    isinstance(st.value.func.value, ast.Name) and \
+                    st.value.func.value.id == nm and st.value.args:
+                v = st.value.args[-1]
+            if v is not None and id(st) in smap and smap[id(st)] is not at:
+                out |= _flows_into(g, smap, fnode, v, smap[id(st)], depth - 1)
+    return out
 
 
 def _next_iter_or_exit(g, node):
@@ -386,10 +432,456 @@ def _descending(it):
 # R04.4  wake-up after a release
 #
 def r04_4(prog, rep, rid='R04.4'):
+    """def-use only (which local carries the release to which guard); whether
+    the wake-up holds on every path is decided by R04.6"""
     rep.rule(rid, 'a release reported by _unschedule_completed re-enables the '
              'wait pool pass of the next loop iteration', minimum=2)
-    f = prog.method(BASE[0], BASE[1], '_schedule_tasks')
+    f, g, smap, wn, un, rvar = _wakeup_anchors(prog)
     rep.saw(f)
+    if not wn.loops or rvar is None:
+        raise AnalysisError('UNRECOGNISED-IDIOM %s: the wait pool pass is not '
+                            'guarded by a flag' % f.where)
+    head, lstart, inbody, tests, deciding = _pass_guard(g, wn)
+    flags = set()
+    for n in deciding:
+        flags |= {x.id for x in walk(n.ast) if isinstance(x, ast.Name)}
+    flags.discard('self')
+    if not flags:
+        raise AnalysisError('UNRECOGNISED-IDIOM %s: the wait pool pass is not '
+                            'guarded by a flag' % f.where)
+    ftxt = ' / '.join(sorted(flags))
+    # ... and the locals those are computed from
+    d = Deps(f.node)
+    for n in list(flags):
+        flags |= {x for x in d.closure(n) if x.isidentifier() and x != 'self'}
+
+    def names(e):
+        return {x.id for x in walk(e) if isinstance(x, ast.Name)}
+
+    def flag_assigns():
+        for n in g.stmt_nodes():
+            if n.kind == 'stmt' and isinstance(n.ast, ast.Assign):
+                for x in n.ast.targets:
+                    if isinstance(x, ast.Name) and x.id in flags:
+                        yield n, x.id
+    after = g.reachable(un.id, skip_nodes={wn.id})
+    sets = []
+    for n, x in flag_assigns():
+        if n.id not in after:
+            continue
+        v = n.ast.value
+        if isinstance(v, ast.Constant) and v.value:
+            if any(rvar in names(g.nodes[tid].ast)
+                   for tid, lab in guards(g, n.id, start=un.id)):
+                sets.append((n, x))
+        elif rvar in names(v):
+            sets.append((n, x))
+    rep.check(bool(sets), rid, f, 'the first result of _unschedule_completed '
+              'is used to set `%s`, which guards the wait pool pass' % ftxt,
+              construct='wake-up',
+              message='the first result of _unschedule_completed (`%s`) does '
+              'not set the flag `%s` that guards _schedule_waitpool: released '
+              'resources do not wake up waiting tasks' % (rvar, ftxt),
+              loc=f.loc(un.ast),
+              history='a task waits alone, the running task finishes: the '
+              'waiting task is not started until a new task arrives')
+    # no unconditional clearing of the flag between the wake-up and the pass
+    clears = []
+    for s, x in sets:
+        for n, y in flag_assigns():
+            if y == x and isinstance(n.ast.value, ast.Constant) and \
+                    not n.ast.value.value:
+                # reachable after the set, before the pass, through the back
+                # edge, and not avoidable
+                if n.id in g.reachable(s.id) and \
+                        must_pass(g, s.id, wn.id, [n.id]):
+                    clears.append(n)
+    rep.check(not clears, rid, f, 'the wake-up flag is not cleared on the way '
+              'to the wait pool pass', construct='wake-up:clear',
+              message='`%s` is set after a release but unconditionally cleared '
+              'again before _schedule_waitpool runs' % ftxt,
+              loc=f.loc(clears[0].ast) if clears else f.loc(),
+              history='a task waits alone, the running task finishes: the '
+              'waiting task is not started until a new task arrives')
+
+
+# ------------------------------------------------------------------------------
+# R04.6  a noted release survives until the wait pool pass
+#
+# The loop keeps "is it worth looking at the wait pool" in boolean locals.  The
+# rule evaluates those locals abstractly (known truthy / known falsy / unknown)
+# along the paths of the loop: starting right after the call of
+# _unschedule_completed with its first result truthy, every path must reach
+# the call of _schedule_waitpool (or leave the loop) before it reaches
+# _unschedule_completed again.  Results of other calls are unconstrained, each
+# branch on an unknown value is taken both ways and remembered on that path.
+#
+_CONST_CMP = (ast.Is, ast.IsNot, ast.Eq, ast.NotEq)
+
+# abstract values of a local: exactly True / False / None, or only known to be
+# truthy ('T') / falsy ('F'); unknown = not in the environment
+_EXACT = {'True': True, 'False': False, 'None': None}
+
+
+def _av_truth(av):
+    if av is None:
+        return None
+    return av in ('True', 'T')
+
+
+def _av_const(c):
+    for k, v in _EXACT.items():
+        if c is v:
+            return k
+    return 'T' if c else 'F'
+
+
+def _av_is(av, const):
+    """`x is const` / `x == const` for x with abstract value av and const in
+    (True, False, None): True / False / None(unknown)"""
+    if av is None:
+        return None
+    if av in _EXACT:
+        return _EXACT[av] is const
+    if av == 'T':
+        return None if const is True else False
+    return False if const is True else None
+
+
+def _is_bool_call(e):
+    return isinstance(e, ast.Call) and isinstance(e.func, ast.Name) and \
+        e.func.id == 'bool' and len(e.args) == 1 and not e.keywords
+
+
+def _const_cmp(e):
+    """(operand, constant, positive) of `x is C` / `x == C` / `x is not C` /
+    `x != C` with C in (True, False, None), else None"""
+    if isinstance(e, ast.Compare) and len(e.ops) == 1 and \
+            isinstance(e.ops[0], _CONST_CMP) and \
+            isinstance(e.comparators[0], ast.Constant) and \
+            any(e.comparators[0].value is c for c in (True, False, None)):
+        return (e.left, e.comparators[0].value,
+                isinstance(e.ops[0], (ast.Is, ast.Eq)))
+    return None
+
+
+def _boolean_typed(e):
+    """the value of `e` is exactly True or False"""
+    if isinstance(e, ast.Constant):
+        return isinstance(e.value, bool)
+    if isinstance(e, ast.UnaryOp) and isinstance(e.op, ast.Not):
+        return True
+    if isinstance(e, ast.Compare) or _is_bool_call(e):
+        return True
+    if isinstance(e, ast.BoolOp):
+        return all(_boolean_typed(v) for v in e.values)
+    if isinstance(e, ast.IfExp):
+        return _boolean_typed(e.body) and _boolean_typed(e.orelse)
+    return False
+
+
+def _evaluable(e):
+    """the expression is built only from local names, constants, not/and/or,
+    bool(), comparisons with True/False/None and conditional expressions"""
+    if isinstance(e, (ast.Name, ast.Constant)):
+        return True
+    if isinstance(e, ast.UnaryOp) and isinstance(e.op, ast.Not):
+        return _evaluable(e.operand)
+    if isinstance(e, ast.BoolOp):
+        return all(_evaluable(v) for v in e.values)
+    if isinstance(e, ast.BinOp) and isinstance(e.op, (ast.BitOr, ast.BitAnd)):
+        return _evaluable(e.left) and _evaluable(e.right)
+    if _is_bool_call(e):
+        return _evaluable(e.args[0])
+    if isinstance(e, ast.IfExp):
+        return _evaluable(e.test) and _evaluable(e.body) and \
+            _evaluable(e.orelse)
+    c = _const_cmp(e)
+    if c:
+        return _evaluable(c[0])
+    return False
+
+
+def _aval(e, env):
+    """abstract value of `e` under `env` (name -> abstract value) or None"""
+    if isinstance(e, ast.Constant):
+        return _av_const(e.value)
+    if isinstance(e, ast.Name):
+        return env.get(e.id)
+    if isinstance(e, ast.BoolOp):
+        # short circuit: the value is that of the deciding operand
+        conj = isinstance(e.op, ast.And)
+        for x in e.values[:-1]:
+            t = _truth(x, env)
+            if t is None:
+                break
+            if t != conj:
+                return _aval(x, env)
+        else:
+            return _aval(e.values[-1], env)
+    if isinstance(e, ast.IfExp):
+        t = _truth(e.test, env)
+        if t is not None:
+            return _aval(e.body if t else e.orelse, env)
+        a, b = _aval(e.body, env), _aval(e.orelse, env)
+        if a is not None and a == b:
+            return a
+    t = _truth(e, env)
+    if t is None:
+        return None
+    if _boolean_typed(e):
+        return 'True' if t else 'False'
+    return 'T' if t else 'F'
+
+
+def _truth(e, env):
+    """truthiness of `e` under `env`: True / False / None(unknown)"""
+    if isinstance(e, ast.Constant):
+        return bool(e.value)
+    if isinstance(e, ast.Name):
+        return _av_truth(env.get(e.id))
+    if isinstance(e, ast.UnaryOp) and isinstance(e.op, ast.Not):
+        v = _truth(e.operand, env)
+        return None if v is None else not v
+    if isinstance(e, ast.BoolOp) or (isinstance(e, ast.BinOp) and
+                                     isinstance(e.op, ast.BitOr)):
+        vals = [_truth(v, env) for v in (
+            e.values if isinstance(e, ast.BoolOp) else [e.left, e.right])]
+        if isinstance(e, ast.BoolOp) and isinstance(e.op, ast.And):
+            if any(v is False for v in vals):
+                return False
+            return True if all(v is True for v in vals) else None
+        if any(v is True for v in vals):
+            return True
+        return False if all(v is False for v in vals) else None
+    if isinstance(e, ast.BinOp) and isinstance(e.op, ast.BitAnd):
+        vals = [_truth(e.left, env), _truth(e.right, env)]
+        return False if any(v is False for v in vals) else None
+    if _is_bool_call(e):
+        return _truth(e.args[0], env)
+    if isinstance(e, ast.IfExp):
+        t = _truth(e.test, env)
+        a, b = _truth(e.body, env), _truth(e.orelse, env)
+        if t is not None:
+            return a if t else b
+        return a if a == b else None
+    c = _const_cmp(e)
+    if c:
+        x, const, pos = c
+        v = _av_is(_aval(x, env), const)
+        return None if v is None else (v == pos)
+    return None
+
+
+def _assume(e, val, env):
+    """`env` refined by the fact that `e` is truthy (val) / falsy; None when
+    that contradicts what is known"""
+    v = _truth(e, env)
+    if v is not None:
+        return env if v == val else None
+    if isinstance(e, ast.Name):
+        env = dict(env)
+        env[e.id] = 'T' if val else 'F'
+        return env
+    if isinstance(e, ast.UnaryOp) and isinstance(e.op, ast.Not):
+        return _assume(e.operand, not val, env)
+    if _is_bool_call(e):
+        return _assume(e.args[0], val, env)
+    if isinstance(e, ast.BoolOp):
+        conj = isinstance(e.op, ast.And)
+        if val == conj:
+            # all operands true (and) / all operands false (or)
+            for x in e.values:
+                env = _assume(x, val, env)
+                if env is None:
+                    return None
+            return env
+        open_ = [x for x in e.values if _truth(x, env) is None]
+        if len(open_) == 1:
+            return _assume(open_[0], val, env)
+        return env
+    c = _const_cmp(e)
+    if c:
+        x, const, pos = c
+        if val == pos and isinstance(x, ast.Name):
+            # x is exactly the constant (its value is compatible, else the
+            # comparison would have been decided above)
+            env = dict(env)
+            env[x.id] = _av_const(const)
+            return env
+        if val == pos:
+            return _assume(x, const is True, env)
+        return env
+    return env
+
+
+
+def _bound_names(node):
+    """plain names (re)bound when the cfg node takes effect"""
+    a = node.ast
+    out = set()
+    if a is None or node.kind in ('while', 'dispatch', 'join'):
+        return out
+    if node.kind == 'for':
+        return set(stores_in_target(a.target))
+    if node.kind == 'with':
+        for i in a.items:
+            if i.optional_vars is not None:
+                out |= set(stores_in_target(i.optional_vars))
+            out |= {x.target.id for x in walk(i.context_expr)
+                    if isinstance(x, ast.NamedExpr)}
+        return out
+    if node.kind == 'handler':
+        return {a.name} if getattr(a, 'name', None) else out
+    if isinstance(a, (ast.FunctionDef, ast.AsyncFunctionDef, ast.ClassDef)):
+        return {a.name}
+    if isinstance(a, (ast.Import, ast.ImportFrom)):
+        return {(al.asname or al.name).split('.')[0] for al in a.names}
+    for x in walk(a):
+        if isinstance(x, ast.Name) and isinstance(x.ctx, (ast.Store, ast.Del)):
+            out.add(x.id)
+    return out
+
+
+class _FlagFlow:
+    """abstract evaluation of the boolean locals `relevant` over a cfg"""
+
+    def __init__(self, f, g, relevant, guard_names, max_states=60000):
+        self.f, self.g, self.relevant = f, g, relevant
+        self.guard_names = guard_names
+        self.max_states = max_states
+
+    def _freeze(self, env):
+        return frozenset((k, v) for k, v in env.items() if k in self.relevant)
+
+    def step(self, node, edge, st):
+        """states after leaving `node` through `edge` in state `st`"""
+        if edge.label == 'exc':
+            return [st]                      # the node had no effect
+        env = dict(st)
+        a = node.ast
+        if node.kind == 'test':
+            for x in walk(a):
+                if isinstance(x, ast.NamedExpr):
+                    env.pop(x.target.id, None)
+            if edge.label in ('T', 'F'):
+                env = _assume(a, edge.label == 'T', env)
+                if env is None:
+                    return []
+            return [self._freeze(env)]
+        if node.kind == 'stmt' and isinstance(a, (ast.Assign, ast.AnnAssign)) \
+                and a.value is not None:
+            tg = a.targets if isinstance(a, ast.Assign) else [a.target]
+            if all(isinstance(t, ast.Name) for t in tg):
+                return self._assign([t.id for t in tg], a.value, env, node)
+        if node.kind == 'stmt' and isinstance(a, ast.AugAssign) and \
+                isinstance(a.target, ast.Name) and \
+                isinstance(a.op, (ast.BitOr, ast.BitAnd)):
+            val = ast.BinOp(left=ast.Name(id=a.target.id, ctx=ast.Load()),
+                            op=a.op, right=a.value)
+            return self._assign([a.target.id], val, env, node)
+        bound = _bound_names(node)
+        if bound & self.relevant:
+            self._free_input(bound, getattr(a, 'value', None)
+                             if node.kind == 'stmt' else None, node)
+        for b in bound:
+            env.pop(b, None)
+        return [self._freeze(env)]
+
+    def _free_input(self, bound, value, node):
+        """a relevant local is bound to something this rule cannot evaluate.
+        That is an unconstrained input only for the result of a call which
+        does not read the flags (the three steps of the loop report what they
+        found) and only for a local that is not itself tested by the guard of
+        the pass; everything else: do not guess"""
+        reads = {x.id for x in walk(value) if isinstance(x, ast.Name)} \
+            if value is not None else set()
+        if isinstance(value, ast.Call) and isinstance(
+                node.ast, (ast.Assign, ast.AnnAssign)) and \
+                not (reads & self.relevant) and \
+                not (bound & self.guard_names):
+            return
+        raise AnalysisError(
+            'UNRECOGNISED-IDIOM %s: `%s` computes a flag of the scheduling '
+            'loop in a way that is neither a boolean expression over locals '
+            'nor the result of one of the steps'
+            % (self.f.where, short(node.ast, 70)
+               if node.kind == 'stmt' else node.kind))
+
+    def _assign(self, names, value, env, node):
+        if not (set(names) & self.relevant):
+            for n in names:
+                env.pop(n, None)
+            return [self._freeze(env)]
+        if not _evaluable(value):
+            self._free_input(set(names), value, node)
+            for n in names:
+                env.pop(n, None)
+            return [self._freeze(env)]
+        out = []
+        av = _aval(value, env)
+        for val in (True, False):
+            e2 = _assume(value, val, env)
+            if e2 is None:
+                continue
+            e2 = dict(e2)
+            v2 = av if av is not None else _aval(value, e2)
+            if v2 is None or _av_truth(v2) != val:
+                v2 = ('True' if val else 'False') if _boolean_typed(value) \
+                    else ('T' if val else 'F')
+            for n in names:
+                e2[n] = v2
+            out.append(self._freeze(e2))
+        return out
+
+    def run(self, starts, stop, exc=True):
+        """reachability over (node, state) from `starts` [(node id, state)];
+        `stop(node id)` ends a path; exc=False: exception edges are not
+        followed.  Returns (parent map, stopped keys)"""
+        parent = {}
+        todo = deque()
+        for k in starts:
+            if k not in parent:
+                parent[k] = None
+                todo.append(k)
+        stopped = []
+        while todo:
+            key = todo.popleft()
+            nid, st = key
+            if len(parent) > self.max_states:
+                raise AnalysisError('UNRECOGNISED-IDIOM %s: flag evaluation '
+                                    'exceeds %d states'
+                                    % (self.f.where, self.max_states))
+            node = self.g.nodes[nid]
+            for e in self.g.succ[nid]:
+                if e.label == 'exc' and not exc:
+                    continue
+                for st2 in self.step(node, e, st):
+                    k2 = (e.dst, st2)
+                    if k2 in parent:
+                        continue
+                    parent[k2] = (key, e)
+                    if stop(e.dst):
+                        stopped.append(k2)
+                    else:
+                        todo.append(k2)
+        return parent, stopped
+
+    def witness(self, parent, key):
+        """[(cfg node, edge, state after)] from a start to `key`"""
+        out = []
+        while parent.get(key) is not None:
+            prev, e = parent[key]
+            out.append((self.g.nodes[e.src], e, dict(key[1])))
+            key = prev
+        out.reverse()
+        return out
+
+
+def _wakeup_anchors(prog):
+    """(f, g, smap, node of the _schedule_waitpool call, node of the
+    _unschedule_completed call, name bound to its first result)"""
+    f = prog.method(BASE[0], BASE[1], '_schedule_tasks')
     g = cfg_of(f)
     smap = I.stmt_node_map(g)
     wp = [c for c in calls_in(f.node)
@@ -401,64 +893,159 @@ def r04_4(prog, rep, rid='R04.4'):
         raise AnalysisError('UNRECOGNISED-IDIOM %s: calls of '
                             '_schedule_waitpool/_unschedule_completed'
                             % f.where)
-    wn = smap[id(wp[0])]
     t = uc[0].targets[0]
-    rvar = t.elts[0].id if isinstance(t, ast.Tuple) and \
+    rvar = t.elts[0].id if isinstance(t, ast.Tuple) and t.elts and \
         isinstance(t.elts[0], ast.Name) else (t.id if isinstance(t, ast.Name)
                                               else None)
-    # the flag guarding the wait pool pass
-    flags = [g.nodes[tid].ast.id for tid, lab in guards(
-        g, wn.id, start=loop_slice(g, wn.loops[-1])[0] if wn.loops else None)
-        if isinstance(g.nodes[tid].ast, ast.Name) and lab == 'T']
-    if not flags or rvar is None:
-        raise AnalysisError('UNRECOGNISED-IDIOM %s: the wait pool pass is not '
-                            'guarded by a flag' % f.where)
-    flag = flags[-1]
-    un = smap[id(uc[0])]
-    sets = []
-    for n in g.stmt_nodes():
-        if n.kind == 'stmt' and isinstance(n.ast, ast.Assign) and any(
-                isinstance(x, ast.Name) and x.id == flag
-                for x in n.ast.targets):
-            v = n.ast.value
-            if isinstance(v, ast.Constant) and v.value is True:
-                gs = guards(g, n.id, start=un.id)
-                if any(isinstance(g.nodes[tid].ast, ast.Name) and
-                       g.nodes[tid].ast.id == rvar and lab == 'T'
-                       for tid, lab in gs) and n.id in g.reachable(
-                           un.id, no_back=True):
-                    sets.append(n)
-            elif rvar in {x.id for x in walk(v) if isinstance(x, ast.Name)} \
-                    and n.id in g.reachable(un.id, no_back=True):
-                sets.append(n)
-    rep.check(bool(sets), rid, f, 'a true first result of '
-              '_unschedule_completed sets `%s`, which guards the wait pool '
-              'pass' % flag, construct='wake-up',
-              message='the first result of _unschedule_completed (`%s`) does '
-              'not set the flag `%s` that guards _schedule_waitpool: released '
-              'resources do not wake up waiting tasks' % (rvar, flag),
-              loc=f.loc(uc[0]),
-              history='a task waits alone, the running task finishes: the '
-              'waiting task is not started until a new task arrives')
-    # no unconditional clearing of the flag between the wake-up and the pass
-    clears = []
-    for s in sets:
-        for n in g.stmt_nodes():
-            if n.kind == 'stmt' and isinstance(n.ast, ast.Assign) and any(
-                    isinstance(x, ast.Name) and x.id == flag
-                    for x in n.ast.targets) and \
-                    isinstance(n.ast.value, ast.Constant) and \
-                    n.ast.value.value is False:
-                # reachable after the set, before the pass, through the back
-                # edge, and not avoidable
-                if n.id in g.reachable(s.id) and \
-                        must_pass(g, s.id, wn.id, [n.id]):
-                    clears.append(n)
-    rep.check(not clears, rid, f, 'the wake-up flag is not cleared on the way '
-              'to the wait pool pass', construct='wake-up:clear',
-              message='`%s` is set after a release but unconditionally cleared '
-              'again before _schedule_waitpool runs' % flag,
-              loc=f.loc(clears[0].ast) if clears else f.loc())
+    return f, g, smap, smap[id(wp[0])], smap[id(uc[0])], rvar
+
+
+def _tf_edges(g, n):
+    return [e for e in g.succ[n.id] if e.label in ('T', 'F')]
+
+
+def _pass_guard(g, wn):
+    """(loop head id, first node of an iteration, node ids of one iteration,
+    its test nodes, the tests which decide whether the wait pool pass `wn`
+    runs in an iteration: their out-edges differ in whether the pass can be
+    reached or in whether it is reached on every path to the next iteration)"""
+    head = wn.loops[0]
+    lstart = loop_slice(g, head)[0]
+    inbody = g.reachable(lstart, no_back=True) & g.loop_body[head]
+    tests = [n for n in g.nodes if n.kind == 'test' and n.id in inbody]
+
+    def runs_pass(nid):
+        # (may run the pass, runs it on every path to the next iteration)
+        may = wn.id in g.reachable(nid, no_back=True)
+        return may, may and head not in g.reachable(nid, skip_nodes={wn.id})
+    deciding = [n for n in tests
+                if len({runs_pass(e.dst) for e in _tf_edges(g, n)
+                        if head in g.reachable(e.dst)}) > 1]
+    return head, lstart, inbody, tests, deciding
+
+
+def r04_6(prog, rep, rid='R04.6'):
+    rep.rule(rid, 'a release noted in one iteration of the scheduling loop is '
+             'not forgotten: from _unschedule_completed with a true first '
+             'result every path runs the wait pool pass before it reclaims '
+             'again', minimum=1)
+    f, g, smap, wn, un, rvar = _wakeup_anchors(prog)
+    rep.saw(f)
+    if rvar is None or not wn.loops or not un.loops or \
+            wn.loops[0] != un.loops[0]:
+        raise AnalysisError('UNRECOGNISED-IDIOM %s: _schedule_waitpool and '
+                            '_unschedule_completed are not steps of one loop, '
+                            'or the release result is not bound to a name'
+                            % f.where)
+    head, lstart, inbody, tests, deciding = _pass_guard(g, wn)
+    # the locals read by the tests which decide whether the pass runs, and all
+    # those depend on
+    gnames = set()
+    for n in deciding:
+        if not _evaluable(n.ast):
+            raise AnalysisError(
+                'UNRECOGNISED-IDIOM %s: the wait pool pass depends on `%s`, '
+                'which is not a boolean expression over locals'
+                % (f.where, short(n.ast, 60)))
+        gnames |= {x.id for x in walk(n.ast) if isinstance(x, ast.Name)}
+    d = Deps(f.node)
+    relevant = set(gnames) | {rvar}
+    for n in list(gnames):
+        relevant |= {x for x in d.closure(n) if x.isidentifier()}
+    relevant.discard('self')
+    # a test this rule cannot evaluate must not decide what a flag becomes
+    binders = {n.id for n in g.nodes if n.id in inbody and n.kind != 'test'
+               and _bound_names(n) & relevant}
+    for n in tests:
+        if _evaluable(n.ast):
+            continue
+        es = [e for e in _tf_edges(g, n) if head in g.reachable(e.dst)]
+        if len({frozenset(g.reachable(e.dst, no_back=True) & binders)
+                for e in es}) > 1:
+            raise AnalysisError(
+                'UNRECOGNISED-IDIOM %s: a flag of the scheduling loop is '
+                'updated depending on `%s`, which is not a boolean '
+                'expression over locals' % (f.where, short(n.ast, 60)))
+    ff = _FlagFlow(f, g, relevant, gnames)
+    # (A) the valuations of those locals with which the loop can arrive at the
+    # call of _unschedule_completed (fixpoint over all iterations)
+    parent, _ = ff.run([(g.entry.id, frozenset())], lambda nid: False)
+    arrive = sorted({st for nid, st in parent if nid == un.id},
+                    key=lambda s: sorted(s))
+    if not arrive:
+        raise AnalysisError('UNRECOGNISED-IDIOM %s: the call of '
+                            '_unschedule_completed is not reachable' % f.where)
+    rep.stat('wakeup_states', len(parent))
+    # (B) from there, with a release reported
+    groups = {}
+    for st in arrive:
+        groups.setdefault(frozenset((k, v) for k, v in st if k in gnames),
+                          []).append(st)
+    for proj in sorted(groups, key=lambda s: sorted(s)):
+        starts = []
+        for st in groups[proj]:
+            env = dict(st)
+            for b in _bound_names(un):
+                env.pop(b, None)
+            env[rvar] = 'T'
+            for e in g.succ[un.id]:
+                if e.label != 'exc':
+                    starts.append((e.dst, ff._freeze(env)))
+        stops = {wn.id, un.id, g.exit.id, g.raise_.id}
+        # (exceptions raised between the release and the pass are not
+        # followed: an exception here ends the scheduler process)
+        par, stopped = ff.run(starts, lambda nid: nid in stops or
+                              head not in g.nodes[nid].loops and nid != head,
+                              exc=False)
+        lost = [k for k in stopped if k[0] == un.id]
+        desc = ', '.join('%s %s' % (k, 'true' if _av_truth(v) else 'false')
+                         for k, v in sorted(proj)) or 'any state of the flags'
+        what = ('after a release (%s true; before it: %s) the loop runs '
+                '_schedule_waitpool before it calls _unschedule_completed '
+                'again' % (rvar, desc))
+        if not lost:
+            rep.ok(rid, f, what, f.loc(un.ast))
+            continue
+        wit = ff.witness(par, lost[0])
+        path, kill = [], None
+        for node, e, after in wit:
+            if node.kind == 'test' and e.label in 'TF':
+                if not ({x.id for x in walk(node.ast)
+                         if isinstance(x, ast.Name)} & relevant):
+                    continue
+                a = short(node.ast, 60)
+                path.append(a if e.label == 'T' else 'not (%s)' % a)
+            elif node.kind == 'stmt' and e.label != 'exc' and \
+                    _bound_names(node) & relevant:
+                path.append(short(node.ast, 60))
+                if _bound_names(node) & gnames:
+                    kill = node
+        gtxt = ' and '.join(sorted(gnames)) or '(none)'
+        if kill is not None:
+            why = ('`%s` (line %d) is executed after the release was noted '
+                   'and decides the guard' % (short(kill.ast, 60),
+                                              kill.lineno))
+            hist = ('1 node with 4 cores: A (3 cores) runs, W (2 cores) '
+                    'waits; X (2 cores) arrives and has to wait too, and in '
+                    'the same loop iteration A completes: the release is '
+                    'noted and forgotten, the pilot is idle with W and X '
+                    'waiting forever')
+        else:
+            why = ('nothing on that path makes the guard true')
+            hist = ('1 node with 4 cores: A (3 cores) runs, W (2 cores) waits '
+                    'alone (the loop has stopped looking at the wait pool); A '
+                    'completes: the release is not noted, the pilot is idle '
+                    'and W waits forever')
+        rep.bad(rid, f, 'wake-up:survives',
+                '%s: _unschedule_completed reports a release (`%s` true) but '
+                'the loop can reach the next call of _unschedule_completed '
+                'without running _schedule_waitpool in between: the guard of '
+                'the wait pool pass (`%s`) is false in the next iteration - '
+                '%s.  The released resources are not offered to the waiting '
+                'tasks until some other task completes'
+                % (f.name, rvar, gtxt, why),
+                f.loc(kill.ast if kill is not None else un.ast),
+                history=hist, path=path)
 
 
 # ------------------------------------------------------------------------------
@@ -596,7 +1183,10 @@ def run(prog, rep, tier):
         'of all three lazy_bisect results; the "can never be scheduled" raise '
         'is control dependent on _active_cnt == 0 and the other outcome is '
         'wait; priorities are iterated in descending order in both loops; a '
-        'release re-enables the wait pool pass; cancel of waiting tasks '
+        'release re-enables the wait pool pass on every path of the loop from '
+        'the reclaim step (first result true) to the next reclaim step (the '
+        'boolean locals of the loop are evaluated abstractly, the results of '
+        'the three steps are unconstrained); cancel of waiting tasks '
         'removes and reports together, keyed by the requested uid.')
     rep.undecided = ('absence of starvation in general and "as soon as" '
         '(timing of the loop); the bisect heuristics of ru.lazy_bisect.')
@@ -611,6 +1201,7 @@ def run(prog, rep, tier):
     rep.attempt(r04_2, prog, rep)
     rep.attempt(r04_3, prog, rep)
     rep.attempt(r04_4, prog, rep)
+    rep.attempt(r04_6, prog, rep)
     rep.attempt(r04_5, prog, rep)
     # the counter the rule R04.2 rests on
     from .c03 import r03_3
@@ -620,6 +1211,9 @@ def run(prog, rep, tier):
 
 # ------------------------------------------------------------------------------
 _B = 'agent/scheduler/base.py'
+_RANOUT = "            if resources and (r_wait is False and r_inc is False):\n                resources = False\n"
+_NEWPOOL = "            self._waitpool[priority] = {task['uid']: task\n                                            for task in (unscheduled + to_wait)}\n"
+_WAKE = "            if not resources and r:\n                resources = True\n"
 
 MUTATIONS = [
     dict(name='R04.1 invalid-ranks task failed and scheduled (F10 reverted)', rules=('R04.1',), edits=[
@@ -664,9 +1258,9 @@ MUTATIONS = [
         (_B, "        for priority in sorted(self._waitpool.keys(), reverse=True):", "        for priority in sorted(self._waitpool.keys()):")]),
     dict(name='R04.3 incoming in insertion order', rules=('R04.3',), edits=[
         (_B, "        for priority in sorted(to_schedule.keys(), reverse=True):", "        for priority in to_schedule:")]),
-    dict(name='R04.4 wake-up uses the activity flag', rules=('R04.4',), edits=[
+    dict(name='R04.4 wake-up uses the activity flag', rules=('R04.4', 'R04.6'), edits=[
         (_B, "            if not resources and r:\n                resources = True", "            if not resources and a and not r:\n                resources = True")]),
-    dict(name='R04.4 wake-up removed', rules=('R04.4',), edits=[
+    dict(name='R04.4 wake-up removed', rules=('R04.4', 'R04.6'), edits=[
         (_B, "            if not resources and r:\n                resources = True\n", "")]),
     dict(name='R04.4 release not reported', rules=('R04.4',), edits=[
         (_B, "        # we have new resources, and were active\n        return True, True", "        # we have new resources, and were active\n        return None, True")]),
@@ -682,6 +1276,23 @@ MUTATIONS = [
     dict(name='R04.1 wait list shared by all priorities (seed C04-a)', rules=('R04.1',), edits=[
         (_B, "            tasks   = to_schedule[priority]\n            to_wait = list()\n", "            tasks   = to_schedule[priority]\n"),
         (_B, "        for priority in sorted(to_schedule.keys(), reverse=True):\n", "        to_wait = list()\n        for priority in sorted(to_schedule.keys(), reverse=True):\n")]),
+    dict(name='R04.1 new pool filled by a loop over the unscheduled tasks only', rules=('R04.1',), edits=[
+        (_B, _NEWPOOL, "            new_pool = dict()\n            for task in unscheduled:\n                new_pool[task['uid']] = task\n            self._waitpool[priority] = new_pool\n")]),
+    dict(name='R04.1 new pool filled by loops which include the started tasks', rules=('R04.1',), edits=[
+        (_B, _NEWPOOL, "            new_pool = dict()\n            for tasks in (scheduled, unscheduled, to_wait):\n                for task in tasks:\n                    new_pool[task['uid']] = task\n            self._waitpool[priority] = new_pool\n")]),
+    dict(name='R04.6 ran-out evaluated after the release was noted (seed C04-c)', rules=('R04.6',), edits=[
+        (_B, _RANOUT, ""),
+        (_B, _WAKE, _WAKE + "\n" + _RANOUT)]),
+    dict(name='R04.6 ran-out evaluated at the end of the iteration, without the flag guard', rules=('R04.6',), edits=[
+        (_B, _RANOUT, ""),
+        (_B, "            if not active:\n                time.sleep(0.1)  # FIXME: configurable\n", "            if not active:\n                time.sleep(0.1)  # FIXME: configurable\n\n            if r_wait is False and r_inc is False:\n                resources = False\n")]),
+    dict(name='R04.6 flag as one expression in which ran-out wins over the release', rules=('R04.6',), edits=[
+        (_B, _RANOUT, ""),
+        (_B, _WAKE, "            resources = bool(resources or r) and not (r_wait is False and r_inc is False)\n")]),
+    dict(name='R04.6 release result overwritten by a second intake before it is looked at', rules=('R04.6',), edits=[
+        (_B, "            r, a = self._unschedule_completed()\n", "            r, a = self._unschedule_completed()\n            active += int(a)\n            r, a = self._schedule_incoming()\n")]),
+    dict(name='R04.6 release noted only when an incoming task had to wait', rules=('R04.6',), edits=[
+        (_B, _WAKE, "            if not resources and r and r_inc is False:\n                resources = True\n")]),
 ]
 
 SILENT = [
@@ -699,4 +1310,41 @@ SILENT = [
         (_B, "                    if self._try_allocation(task):\n                        # task got scheduled", "                    placed = self._try_allocation(task)\n                    if placed:\n                        # task got scheduled")]),
     dict(name='delete before collect in cancel branch', edits=[
         (_B, "                                to_cancel.append(task)\n                                del self._waitpool[priority][uid]\n", "                                del self._waitpool[priority][uid]\n                                to_cancel.append(task)\n")]),
+    dict(name='new pool filled by two explicit loops (as in C04-r5)', edits=[
+        (_B, _NEWPOOL, "            new_pool = dict()\n            for task in unscheduled:\n                new_pool[task['uid']] = task\n            for task in to_wait:\n                new_pool[task['uid']] = task\n            self._waitpool[priority] = new_pool\n")]),
+    dict(name='new pool filled with update() of two comprehensions', edits=[
+        (_B, _NEWPOOL, "            new_pool = {t['uid']: t for t in unscheduled}\n            new_pool.update({t['uid']: t for t in to_wait})\n            self._waitpool[priority] = new_pool\n")]),
+    dict(name='release result in a renamed local', edits=[
+        (_B, "            r, a = self._unschedule_completed()\n            if not resources and r:\n                resources = True\n            active += int(a)\n            self._log.debug_3('schedule tasks c: %s %s', r, a)\n", "            freed, a = self._unschedule_completed()\n            if not resources and freed:\n                resources = True\n            active += int(a)\n            self._log.debug_3('schedule tasks c: %s %s', freed, a)\n")]),
+    dict(name='ran-out evaluated after the reclaim, but only when nothing was released', edits=[
+        (_B, _RANOUT, ""),
+        (_B, _WAKE, _WAKE + "            if resources and not r and (r_wait is False and r_inc is False):\n                resources = False\n")]),
+    dict(name='ran-out test hoisted into a local', edits=[
+        (_B, _RANOUT, "            ran_out = r_wait is False and r_inc is False\n            if resources and ran_out:\n                resources = False\n")]),
+    dict(name='ran-out computed before and applied after the reclaim unless released', edits=[
+        (_B, _RANOUT, "            ran_out = resources and r_wait is False and r_inc is False\n"),
+        (_B, _WAKE, "            if r:\n                resources = True\n            elif ran_out:\n                resources = False\n")]),
+    dict(name='flag update as if/elif after the reclaim', edits=[
+        (_B, _RANOUT, ""),
+        (_B, _WAKE, "            if r:\n                resources = True\n            elif r_wait is False and r_inc is False:\n                resources = False\n")]),
+    dict(name='flag update as one expression after the reclaim', edits=[
+        (_B, _RANOUT, ""),
+        (_B, _WAKE, "            resources = bool(r) or (resources and not (r_wait is False and r_inc is False))\n")]),
+    dict(name='ran-out decision in an extracted helper', edits=[
+        (_B, _RANOUT, "            resources = self._still_useful(resources, r_wait, r_inc)\n"),
+        (_B, "    def _prof_sched_skip(self, task):\n", "    def _still_useful(self, resources, r_wait, r_inc):\n\n        if resources and (r_wait is False and r_inc is False):\n            return False\n        return resources\n\n\n    def _prof_sched_skip(self, task):\n")]),
+    dict(name='wake-up with a redundant test of the pool pass result', edits=[
+        (_B, _WAKE, "            if not resources and r and r_wait is False:\n                resources = True\n")],
+         note='when the flag is false the pass either did not run (r_wait = False) or returned False'),
+    dict(name='guard of the pass through a derived local', edits=[
+        (_B, "            if resources:\n                r_wait, a = self._schedule_waitpool()\n", "            do_pass = bool(resources)\n            if do_pass is True:\n                r_wait, a = self._schedule_waitpool()\n")]),
+    dict(name='flag held as 1 / 0', edits=[
+        (_B, _RANOUT, "            if resources and (r_wait is False and r_inc is False):\n                resources = 0\n"),
+        (_B, _WAKE, "            if not resources and r:\n                resources = 1\n")]),
+    dict(name='bookkeeping of the reclaim step before the wake-up', edits=[
+        (_B, "            if not resources and r:\n                resources = True\n            active += int(a)\n            self._log.debug_3('schedule tasks c: %s %s', r, a)\n", "            active += int(a)\n            self._log.debug_3('schedule tasks c: %s %s', r, a)\n            if not resources and r:\n                resources = True\n")]),
+    dict(name='scheduling loop as while True with break on termination', edits=[
+        (_B, "        while not self._term.is_set():\n\n            self._log.debug_3('schedule tasks 0", "        while True:\n\n            if self._term.is_set():\n                break\n\n            self._log.debug_3('schedule tasks 0")]),
+    dict(name='wait pool pass in the else branch of a negated guard', edits=[
+        (_B, "            if resources:\n                r_wait, a = self._schedule_waitpool()\n                active += int(a)\n                self._log.debug_3('schedule tasks w: %s %s', r_wait, a)\n", "            if not resources:\n                self._log.debug_3('schedule tasks w: skipped')\n            else:\n                r_wait, a = self._schedule_waitpool()\n                active += int(a)\n                self._log.debug_3('schedule tasks w: %s %s', r_wait, a)\n")]),
 ]
